@@ -475,6 +475,17 @@ def mon_c18(h):
         bad.append(("effects", "effect_issued=%d but reducers returned %d effects" % (m["issued"], effs)))
     if m["errors"] != closed_impl:
         bad.append(("errors", "error_occurred=%d but StoreImpl::dispatch rejected %d calls" % (m["errors"], closed_impl)))
+    # balance: actions the reducer took + actions dropped = dispatches that found the store open
+    rets = [(e["f"][0].split(".")[1], int(e["f"][0].split(".")[2]), e["f"][1]) for e in h.ev
+            if e["kind"] == "RET" and e["f"][0].startswith("d.")]
+    has_sub_chan = any(k == "chan" for _, k, _ in h.sc["subs"]) or any(
+        e["f"][0].startswith(("sc:", "it")) for e in h.kinds("INV"))
+    ambiguous = any(entry == "D" and r == "err" for entry, a, r in rets)
+    if (h.sc["reducers"] or h.sc["mws"]) and not has_sub_chan and not ambiguous and not h.sc["effect_action"]:
+        opened = len(rets) - closed_impl
+        taken = len(taken_actions(h) & {a for _, a, _ in rets})
+        if taken + m["dropped"] != opened:
+            bad.append(("balance", "%d dispatches found the store open, the reducer took %d actions, action_dropped=%d" % (opened, taken, m["dropped"])))
     return bad
 
 
@@ -530,7 +541,7 @@ def mon_c06(h):
     # conservation: taken + dropped = dispatched while open
     closed = sum(1 for entry, a, r in rets if r == "err" and entry in ("I", "T"))
     ambiguous = any(entry == "D" and r == "err" for entry, a, r in rets)
-    if m and not has_sub_chan and not ambiguous:
+    if m and not has_sub_chan and not ambiguous and not h.sc["effect_action"]:
         opened = len(rets) - closed
         exits = 1 if m["received"] + m["dropped"] == opened + 1 else 0
         if m["received"] - exits + m["dropped"] != opened:
